@@ -176,7 +176,7 @@ Lemma sfx_not_gz : fsfx (c_spec c) <> Some gz_sfx.
 Proof. intros E. pose proof (sfx_ok_not_gz _ _ G E) as X. rewrite beq_refl in X. discriminate. Qed.
 
 Lemma qf_kname_plain k : in_years e (fst k) -> qf off sfx (fixed0 c) (IFTs std_fmt) sfx (kname c e k) = true.
-Proof. intros Y. unfold qf, sfx. rewrite (candidate_kname c e k Y). cbn [filter_infix]. rewrite (parse_tsx e _ Y). reflexivity. Qed.
+Proof. intros Y. unfold qf, sfx. rewrite (candidate_kname c e k Y). cbn [filter_infix]. rewrite (canonical_tsx e _ Y). reflexivity. Qed.
 
 Lemma qf_kname_gz k : in_years e (fst k) -> qf off sfx (fixed0 c) (IFTs std_fmt) (Some gz_sfx) (kname c e k) = false.
 Proof. intros Y. unfold qf, infix_candidate. rewrite (kname_no_gz c e k G Y). reflexivity. Qed.
@@ -211,7 +211,7 @@ Proof.
 Qed.
 
 Lemma qf_cname_ts_plain : qf off sfx (fixed0 c) (IFTs std_fmt) sfx (cname c) = false.
-Proof. unfold qf, sfx. rewrite candidate_cname. cbn [filter_infix]. rewrite cur_infix_no_stamp. reflexivity. Qed.
+Proof. unfold qf, sfx. rewrite candidate_cname. cbn [filter_infix]. rewrite cur_infix_not_canonical. reflexivity. Qed.
 Lemma qf_cname_ts_gz : qf off sfx (fixed0 c) (IFTs std_fmt) (Some gz_sfx) (cname c) = false.
 Proof. unfold qf, infix_candidate. rewrite (cname_no_gz c G). reflexivity. Qed.
 End Filters.
